@@ -1456,6 +1456,7 @@ def check_rr_history(rp, ops):
     FWD = 'TMGR_STAGING_INPUT_PENDING'
     s = mk_rr(rp)
     added, probs, n_task = set(), [], [0]
+    named_of = dict()
     for op in ops:
         kind = op[0]
         try:
@@ -1470,7 +1471,9 @@ def check_rr_history(rp, ops):
                 for _ in range(op[1]):
                     n_task[0] += 1
                     t = {'uid': 'task.%04d' % n_task[0]}
-                    if op[2]: t['pilot'] = op[2]
+                    if op[2]:
+                        t['pilot'] = op[2]
+                        named_of[t['uid']] = op[2]
                     batch.append(t)
                 before = len(s.fwd)
                 named = op[2]
@@ -1497,6 +1500,9 @@ def check_rr_history(rp, ops):
             pass
         except Exception as e:
             probs.append('%s raised %r' % (op, e))
+    for uid, pid, st in s.fwd:
+        if st == FWD and uid in named_of and pid != named_of[uid]:
+            probs.append('%s names pilot %s but was bound to %s' % (uid, named_of[uid], pid))
     fw = dict()
     for uid, pid, st in s.fwd:
         if st == FWD: fw[uid] = fw.get(uid, 0) + 1
@@ -1520,6 +1526,8 @@ def tmgr_rr(case, rp):
         [('add', ['p1', 'p2']), ('remove', ['p1']), ('submit', 4, None)],
         [('submit', 2, 'p1'), ('add', ['p1']), ('remove', ['p1']), ('add', ['p1']), ('submit', 1, 'p1')],
         [('add', ['p1']), ('submit', 2, 'p2'), ('add', ['p2']), ('submit', 3, None)],
+        [('submit', 2, 'p1'), ('submit', 1, 'p2'), ('add', ['p1', 'p2', 'p3'])],
+        [('submit', 1, 'p3'), ('submit', 2, 'p2'), ('add', ['p2', 'p3']), ('add', ['p1'])],
         [('add', ['p1', 'p2']), ('submit', 1, None), ('submit', 1, None), ('submit', 1, None), ('remove', ['p2']), ('submit', 3, None)],
     ]
     for k, h in enumerate(histories):
@@ -1730,3 +1738,68 @@ def work_cb_dispatch(case, rp):
                 return dict(confirmed=True, detail='; '.join(probs[:3]), input=dict(states=states, worker_raises=raises),
                             found_by='directed native scenario (%d tried)' % n)
     return dict(confirmed=False, detail='%d work_cb scenarios hold natively' % n)
+
+
+@builder('task_manager.py:TaskManager._task_cb')
+def tmgr_task_cb(case, rp):
+    """the real _task_cb with registered application callbacks: each is called once
+    with the announced state, also when the task has moved on meanwhile"""
+    import threading as mt
+    import radical.pilot.constants as rpc
+    from radical.pilot.task_manager import TaskManager
+    m = object.__new__(TaskManager)
+    m._log = Stub()
+    m._tcb_lock = mt.RLock()
+    seen = []
+    def cb_all(task, state): seen.append(('all', task.uid, state))
+    def cb_one(task, state, data): seen.append(('one', task.uid, state, data))
+    def cb_bad(task, state): seen.append(('bad', task.uid, state)); raise RuntimeError('application error')
+    m._callbacks = {rpc.TASK_STATE: {'*': {'a': {'cb': cb_all, 'cb_data': None}, 'b': {'cb': cb_bad, 'cb_data': None}},
+                                     'task.0001': {'c': {'cb': cb_one, 'cb_data': 'X'}}}}
+    class T:
+        uid = 'task.0001'; state = 'DONE'
+    probs = []
+    for announced in ('TMGR_SCHEDULING', 'AGENT_EXECUTING', 'DONE'):
+        del seen[:]
+        try:
+            m._task_cb(T(), announced)
+        except Exception as e:
+            return dict(confirmed=True, detail='an exception of an application callback escaped _task_cb: %r' % e,
+                        input=dict(announced=announced))
+        if sorted(x[0] for x in seen) != ['all', 'bad', 'one']:
+            probs.append('announcing %s: callbacks invoked %s (expected each of the three once)' % (announced, [x[0] for x in seen]))
+        for x in seen:
+            if x[2] != announced:
+                probs.append('announcing %s while the task is already DONE: callback %s was told %s' % (announced, x[0], x[2]))
+    if probs:
+        return dict(confirmed=True, detail='; '.join(probs[:3]), input=dict(task_state='DONE', announced=['TMGR_SCHEDULING', 'AGENT_EXECUTING', 'DONE']),
+                    found_by='directed native scenario')
+    return dict(confirmed=False, detail='3 callback scenarios hold natively')
+
+
+@builder('task_manager.py:TaskManager.add_pilots')
+def tmgr_add_pilots(case, rp):
+    import threading as mt
+    from radical.pilot.task_manager import TaskManager
+    for n in (1, 2, 3):
+        m = object.__new__(TaskManager)
+        m._log = Stub(); m._uid = 'tmgr.0000'
+        m._pilots, m._pilots_lock = dict(), mt.RLock()
+        m.publish = lambda *a, **k: None
+        class P:
+            def __init__(s, uid): s.uid, s.cbs, s.tm = uid, [], None
+            def attach_tmgr(s, tm): s.tm = tm
+            def as_dict(s): return {'uid': s.uid}
+            def register_callback(s, cb, *a, **k): s.cbs.append(cb)
+        ps = [P('pilot.%04d' % i) for i in range(n)]
+        try:
+            m.add_pilots(list(ps))
+        except Exception as e:
+            return dict(confirmed=True, detail='add_pilots raised %r' % e, input=dict(n_pilots=n))
+        missing = [p.uid for p in ps if [c for c in p.cbs if getattr(c, '__name__', '') == '_pilot_state_cb'] == []]
+        if missing:
+            return dict(confirmed=True, detail='add_pilots(%d pilots): the task manager did not register its state callback with %s, '
+                        'so it will not hear of their end' % (n, missing), input=dict(n_pilots=n), found_by='directed native scenario')
+        if set(m._pilots) != set(p.uid for p in ps):
+            return dict(confirmed=True, detail='pilots kept: %s' % sorted(m._pilots), input=dict(n_pilots=n))
+    return dict(confirmed=False, detail='add_pilots with 1..3 pilots registers the callback with each')
